@@ -856,6 +856,10 @@ class FnTrans:
             fp = em.val(PtrT(IntT(8)), callee)
             sig = '%s (*)(%s)' % (em.cty(rt), ', '.join(em.cty(t) for (t, a, v) in [x for x in args if x]) or 'void')
             call = '((%s)%s)(%s)' % (sig, fp, ', '.join(argv))
+            if sig == 'void (*)(char*)' and len(argv) == 1:
+                # shared_ptr control blocks (dispose/destroy) and virtual destructors: one hook a harness may replace (-DVERIF_CALL_V1=...) so that
+                # CBMC does not have to consider every void(char*) function of the unit at every such call
+                call = 'VERIF_CALL_V1(%s, %s)' % (fp, argv[0])
         emit(d + call + ';')
         if op == 'invoke':
             cleanup, cl = s.lp_clauses(unl)
@@ -957,6 +961,10 @@ PRELUDE = r'''
 #include <stdlib.h>
 #include "verif_rt.h"
 #include "verif_arith.h"
+#ifndef VERIF_CALL_V1
+#define VERIF_CALL_V1(f, a) ((void (*)(char*))(f))(a)
+#endif
+void __VERIF_v1_hook(char* f, char* a);
 #define VERIF_NTHREADS 2
 extern int __verif_tid;      /* the modelled thread that is running (thread_local globals are arrays indexed by it); harnesses switch it between calls */
 '''
